@@ -771,7 +771,13 @@ func ruleRootPreload(rule string) func(*Ctx) {
 		fl := c.flow(f)
 		n := 0
 		for i, ret := range returnsIn(f) {
-			if !returnsNil(info, ret) {
+			mayBeNil := returnsNil(info, ret)
+			if len(ret.Results) == 1 {
+				if _, isCall := ast.Unparen(ret.Results[0]).(*ast.CallExpr); isCall {
+					mayBeNil = true // `return inner()` succeeds whenever inner does
+				}
+			}
+			if !mayBeNil {
 				continue
 			}
 			n++
